@@ -122,6 +122,7 @@ type Interp struct {
 	noSlice    bool
 	loopSpecs  map[string]*loopSpec
 	loopPost   map[string]value
+	loopBlocked bool
 	regexps    map[*value]string
 	fnInfos    map[*ssa.Function]*fnInfo
 	fnInfoMu   sync.Mutex
@@ -405,7 +406,7 @@ func (fr *frame) runDefer(d *deferred) {
 		if !ok {
 			r := recover()
 			switch r.(type) {
-			case pathEnd, abortHarness, killThread, loopBackEdge:
+			case pathEnd, abortHarness, killThread, loopBackEdge, deadlockErr:
 				panic(r)
 			}
 			fr.panicking = true
@@ -571,7 +572,7 @@ func (in *Interp) runFrame(fr *frame) {
 		}
 		r := recover()
 		switch r.(type) {
-		case pathEnd, abortHarness, killThread, loopBackEdge:
+		case pathEnd, abortHarness, killThread, loopBackEdge, deadlockErr:
 			panic(r)
 		case targetPanic, runtimePanic:
 		default:
